@@ -132,6 +132,19 @@ Definition lock_with_timeout (T : tmo) (l : lockans) : lkres :=
            end
   end.
 
+(* TCPNetworkClient.__convert_socket_error: except ConnectionError: raise error_from_errno(ECONNABORTED) *)
+Definition convert_code (c : Z) : Z := if c =? E_CONN then E_EOF else c.
+Definition convert_rv (r : rvres) : rvres :=
+  match rv_out r with
+  | RvExc c => mk_rvres (RvExc (convert_code c)) (rv_buf r) (rv_eof r) (rv_sock r) (rv_sels r) (rv_dt r) (rv_waits r)
+  | _ => r
+  end.
+Definition convert_sr (r : sres) : sres :=
+  match sr_out r with
+  | SExc c => mk_sres (SExc (convert_code c)) (sr_sock r) (sr_sels r) (sr_dt r) (sr_waits r) (sr_calls r)
+  | _ => r
+  end.
+
 (* ---- TCPNetworkClient.recv_packet(timeout) *)
 Record clres := mk_clres {
   cl_rv : rvres;
@@ -143,7 +156,7 @@ Definition client_recv (F : nat) (ri : tmo) (N bufsize fuel : nat) (T : tmo) (l 
   let k := lock_with_timeout T l in
   match lk_T k with
   | None => mk_clres (mk_rvres (RvExc (lk_exc k)) buf eof s sels (lk_dt k) []) (lk_waits k)
-  | Some T1 => mk_clres (rv_add (lk_dt k) [] (receive F ri N bufsize fuel T1 buf eof s sels)) (lk_waits k)
+  | Some T1 => mk_clres (rv_add (lk_dt k) [] (convert_rv (receive F ri N bufsize fuel T1 buf eof s sels))) (lk_waits k)
   end.
 
 (* ---- TCPNetworkClient.send_packet(timeout) = lock_with_timeout + endpoint.send_packet (C04's send path) *)
@@ -157,7 +170,7 @@ Definition client_send (drop_empty has_sendmsg : bool) (iov : Z) (F fuel : nat) 
   let k := lock_with_timeout T l in
   match lk_T k with
   | None => mk_csres (mk_sres (SExc (lk_exc k)) s sels (lk_dt k) [] 0) (lk_waits k)
-  | Some T1 => mk_csres (sr_add (lk_dt k) [] 0 (send_iter drop_empty has_sendmsg iov F fuel ri chunks T1 s sels)) (lk_waits k)
+  | Some T1 => mk_csres (sr_add (lk_dt k) [] 0 (convert_sr (send_iter drop_empty has_sendmsg iov F fuel ri chunks T1 s sels))) (lk_waits k)
   end.
 
 (* ---- ClientRecvIterator: a list of __next__ calls, each with its own lock answer.
